@@ -7,7 +7,8 @@ Props/C01.lean).
   * a keyword constrains only values of the type it is about;
   * `type` absent permits every type; `integer` = a number with integral value; a format
     `int32`/`int64` bounds the value when the type is integer only;
-  * `oneOf` = exactly one sub-schema accepts; `anyOf` = some; `allOf` = all; `not` = the child does not accept;
+  * `oneOf` = exactly one sub-schema accepts — with a `discriminator`: the object must carry the property as a
+    string, which (when a mapping is given) must be a key of it, and only the mapped sub-schema is considered; `anyOf` = some; `allOf` = all; `not` = the child does not accept;
   * null: admitted where the schema permits null (`nullable: true` or `"null"` among the types), or —
     the library's documented reading of OpenAPI 3.0 — where the schema has compositions and these
     admit null (e.g. `anyOf: [{nullable: true, …}]`); never otherwise.
@@ -59,9 +60,9 @@ def Sat (env : Env) : S → J → Prop
     if v.isNull then
       kw.permitsNull = true ∨
         ((a ≠ [] ∨ b ≠ [] ∨ c ≠ []) ∧
-         ((∀ t, n = some t → ¬ Sat env t v) ∧ (c = [] ∨ SatCount env c v 1) ∧ (b = [] ∨ SatAny env b v) ∧ SatAll env a v))
+         ((∀ t, n = some t → ¬ Sat env t v) ∧ (c = [] ∨ ((discCheck kw v).pass = true ∧ SatCount env (discCheck kw v).ref c v 1)) ∧ (b = [] ∨ SatAny env b v) ∧ SatAll env a v))
     else
-      ((∀ t, n = some t → ¬ Sat env t v) ∧ (c = [] ∨ SatCount env c v 1) ∧ (b = [] ∨ SatAny env b v) ∧ SatAll env a v) ∧
+      ((∀ t, n = some t → ¬ Sat env t v) ∧ (c = [] ∨ ((discCheck kw v).pass = true ∧ SatCount env (discCheck kw v).ref c v 1)) ∧ (b = [] ∨ SatAny env b v) ∧ SatAll env a v) ∧
       enumSpec kw v ∧ ownSpec env kw v ∧
       (match v with
        | .arr xs => ∀ t, i = some t → SatItems env t xs
@@ -76,10 +77,12 @@ def SatAny (env : Env) : List S → J → Prop
   | [], _ => False
   | s :: ss, v => Sat env s v ∨ SatAny env ss v
 termination_by ss v => (sizeOf v, sizeOf ss)
-/-- exactly `n` of the schemas accept -/
-def SatCount (env : Env) : List S → J → Nat → Prop
+/-- exactly `n` of the schemas selected by the discriminator accept -/
+def SatCount (env : Env) (dr : String) : List S → J → Nat → Prop
   | [], _, n => n = 0
-  | s :: ss, v, n => (Sat env s v ∧ ∃ m, n = m + 1 ∧ SatCount env ss v m) ∨ (¬ Sat env s v ∧ SatCount env ss v n)
+  | s :: ss, v, n =>
+    ((selOK dr s = true ∧ Sat env s v) ∧ ∃ m, n = m + 1 ∧ SatCount env dr ss v m) ∨
+    (¬ (selOK dr s = true ∧ Sat env s v) ∧ SatCount env dr ss v n)
 termination_by ss v _ => (sizeOf v, sizeOf ss)
 def SatItems (env : Env) : S → List J → Prop
   | _, [] => True
@@ -137,16 +140,16 @@ def combineB (env : Env) (kw : Kw) (a b c : List S) (v : J)
     (rNot : Bool) (rCount : Nat) (rAny rAll rChild : Bool) : Bool :=
   if v.isNull then
     kw.permitsNull || ((!a.isEmpty || !b.isEmpty || !c.isEmpty) &&
-      (rNot && (c.isEmpty || rCount == 1) && (b.isEmpty || rAny) && rAll))
+      (rNot && (c.isEmpty || ((discCheck kw v).pass && rCount == 1)) && (b.isEmpty || rAny) && rAll))
   else
-    (rNot && (c.isEmpty || rCount == 1) && (b.isEmpty || rAny) && rAll) && enumOK kw v && ownSpecB env kw v && rChild
+    (rNot && (c.isEmpty || ((discCheck kw v).pass && rCount == 1)) && (b.isEmpty || rAny) && rAll) && enumOK kw v && ownSpecB env kw v && rChild
 
 mutual
 def satB (env : Env) : S → J → Bool
   | .mk kw a b c n i p ad, v =>
     combineB env kw a b c v
       (match n with | none => true | some t => !satB env t v)
-      (satCountB env c v) (satAnyB env b v) (satAllB env a v)
+      (satCountB env (discCheck kw v).ref c v) (satAnyB env b v) (satAllB env a v)
       (match v with
        | .arr xs => (match i with | none => true | some t => satItemsB env t xs)
        | .obj kvs => satPropsB env p ad kw.addHas kvs
@@ -160,9 +163,9 @@ def satAnyB (env : Env) : List S → J → Bool
   | [], _ => false
   | s :: ss, v => satB env s v || satAnyB env ss v
 termination_by ss v => (sizeOf v, sizeOf ss)
-def satCountB (env : Env) : List S → J → Nat
+def satCountB (env : Env) (dr : String) : List S → J → Nat
   | [], _ => 0
-  | s :: ss, v => (if satB env s v then 1 else 0) + satCountB env ss v
+  | s :: ss, v => (if selOK dr s && satB env s v then 1 else 0) + satCountB env dr ss v
 termination_by ss v => (sizeOf v, sizeOf ss)
 def satItemsB (env : Env) : S → List J → Bool
   | _, [] => true
